@@ -518,6 +518,9 @@ func genC16(g *G) {
 	{
 		// exactly at (and one below) the documented limit on the number of stream values: all ids distinct, none nil
 		for _, n := range []int{llo.MaxObservationStreamValuesLength - 1, llo.MaxObservationStreamValuesLength} {
+			if g.Lite() {
+				break
+			}
 			o := cdcRndObsJ(g, 0)
 			vals := make([]any, n)
 			base := g.R.Uint32() >> 1
